@@ -62,10 +62,15 @@ func (c *engCtx) cleanup() {
 }
 
 // analyze runs AnalyzeTemplate(name).GetRequiredData() and renders the template twice with the data
-// object it got. Returns the status of the analysis, the two renders and the fields of the data
-// that a render changed.
-func (c *engCtx) analyze(name string) (ret string, r1, r2 engRes, dmod []string) {
+// object it got. Returns the status of the analysis, the two renders, the fields of the data
+// that a render changed and the fields of templates / base documents the analysis itself changed.
+func (c *engCtx) analyze(name string) (ret string, r1, r2 engRes, dmod, atmod, abmod []string) {
 	r1, r2, dmod = engNoRes(), engNoRes(), []string{}
+	defer func() {
+		if atmod == nil {
+			atmod, abmod = c.sync()
+		}
+	}()
 	var td *document.TemplateData
 	ret, _ = guard(func() string {
 		a, err := c.rnd.AnalyzeTemplate(name)
@@ -75,6 +80,7 @@ func (c *engCtx) analyze(name string) (ret string, r1, r2 engRes, dmod []string)
 		td = a.GetRequiredData()
 		return "ok"
 	})
+	atmod, abmod = c.sync()
 	if ret != "ok" || td == nil {
 		return
 	}
